@@ -680,6 +680,14 @@ class RigidMotion:
             def shift(at, W):
                 return at.T(W, dr)
             e1, _, _ = _energies(kw2, W_fn=shift, seed=seed)
+        elif self.kind == "rotation_several_projectors_per_channel":
+            # species with two or more projectors in a channel with l >= 1 (Ge: p x 2, Ca: p x 2): the m-dependence of the non-local energy has to cancel
+            # within every projector pair of a channel
+            kw = dict(kw, atom=["Ge", "Ca"], pos=pos[:2].tolist(), ecut=5, s=[13, 13, 15])
+            e0, at0, W0 = _energies(kw, seed=seed)
+            R = _rotation(rng)
+            kw2 = dict(kw, a=(np.array(kw["a"]) @ R.T).tolist(), pos=(np.array(kw["pos"]) @ R.T).tolist())
+            e1, _, _ = _energies(kw2, seed=seed)
         elif self.kind == "grid_translation_by_recenter":
             m = rng.integers(1, 6, 3)
             dr = (m / np.array(kw["s"])) @ a
@@ -719,7 +727,8 @@ for _k, _doc in (("rotation", "rotating cell vectors and atom positions together
                  ("lattice_translation_single_atom", "moving individual atoms by lattice vectors"),
                  ("grid_translation", "translating the system by a real-space grid vector with the coefficients translated by T"),
                  ("grid_translation_by_recenter", "translating the system by a real-space grid vector through SCF.recenter (atoms, orbitals and potentials of ONE object move together)"),
-                 ("rotation_orthorhombic_cell_with_kmesh", "rotating an orthorhombic cell with a 2x1x2 k-mesh off the Cartesian axes")):
+                 ("rotation_orthorhombic_cell_with_kmesh", "rotating an orthorhombic cell with a 2x1x2 k-mesh off the Cartesian axes"),
+                 ("rotation_several_projectors_per_channel", "rotating a Ge / Ca system (two projectors in the p channels)")):
     register(Obligation(name=f"C06.energies.{_k}", prop=PROP, engine="B", bounded=True, run=RigidMotion(_k),
                         functions=["eminus.energies:get_E", "eminus.energies:get_Eewald", "eminus.gth:init_gth_loc", "eminus.gth:init_gth_nonloc", "eminus.operators:T"]
                         + (["eminus.scf:SCF.recenter"] if "recenter" in _k else []) + (["eminus.kpoints:kpoint_convert"] if "kmesh" in _k else []),
